@@ -538,12 +538,16 @@ class QuarterSplineRing(SplineRound):
         self.shell[1].add_edge(3, Spline(shell_inner_curve_points))
         self.shell[1].add_edge(1, Spline(shell_outer_curve_points[::-1]))
 
-        # If a circular shape use arc instead of spline
-        if self.side_1 <= constants.TOL and self.side_2 <= constants.TOL and abs(self.r_1 - self.r_2) < constants.TOL:
-            self.shell[0].add_edge(1, Origin(self.center))
-            self.shell[1].add_edge(1, Origin(self.center))
-            self.shell[0].add_edge(3, Origin(self.center))
-            self.shell[1].add_edge(3, Origin(self.center))
+        # If a circular shape use arc instead of spline;
+        # with different widths only the inner curve is a circle
+        if self.side_1 <= constants.TOL and self.side_2 <= constants.TOL:
+            if abs(self.r_1_outer - self.r_2_outer) < constants.TOL:
+                self.shell[0].add_edge(1, Origin(self.center))
+                self.shell[1].add_edge(1, Origin(self.center))
+
+            if abs(self.r_1 - self.r_2) < constants.TOL:
+                self.shell[0].add_edge(3, Origin(self.center))
+                self.shell[1].add_edge(3, Origin(self.center))
 
 
 class HalfSplineRing(QuarterSplineRing):
